@@ -117,6 +117,38 @@ def rule_any(ctx: Ctx):
                 rep.check(ok, "C15.any", e.loc(), "every transition of the event is offered to its source state for expansion", tl.key, norm_stmt(e.node))
 
 
+def rule_wiring(ctx: Ctx):
+    """C15.events: whenever an event that carries transitions is added to the class, those transitions get the
+    event - whether or not an event of that id is already known (mixed `event=` / attribute declarations)."""
+    rep = ctx.rep
+    fn = ctx.fn("StateMachineMetaclass.add_event")
+    n = 0
+    for p in ctx.paths(fn, inline=None, exc_edges="none"):
+        evs = p.events
+        facts = {xshow(b.term, evs): b.x["taken"] for b in p.of("branch")}
+        real = facts.get(f"{fn.params[1]}._has_real_id")
+        has_tr = None
+        for k_, v in facts.items():
+            if k_ in (f"{fn.params[1]}._transitions is None",):
+                has_tr = not v
+        if real is True and has_tr is None:
+            rep.violation("C15.events", fn.loc(), "a path of add_event registers an event with a real id without looking at the transitions assigned "
+                          "to it (mixing `event=` and attribute declarations leaves transitions without their event)", fn.key,
+                          "path: " + ", ".join(f"{a}=={b}" for a, b in facts.items()))
+            continue
+        if real is not True or has_tr is not True:
+            continue
+        n += 1
+        wired = [e for e in p.calls() if isinstance(e.term.func, ast.Attribute) and e.term.func.attr == "_on_event_defined"]
+        rep.check(len(wired) == 1, "C15.events", fn.loc(), "the transitions assigned to an event are wired to it even when the event id is already registered",
+                  fn.key, "path with transitions but without _on_event_defined: " + ", ".join(f"{a}=={b}" for a, b in facts.items()))
+        if wired:
+            kw = {k.arg: xshow(k.value, evs) for k in wired[0].term.keywords}
+            rep.check(kw.get("event") == fn.params[1] and kw.get("states") == f"list({fn.params[0]}.states)", "C15.events", wired[0].loc(),
+                      "the wiring passes this event and the class's states", fn.key, norm_stmt(wired[0].node))
+    rep.floor("C15.events", "paths of add_event with a real id and transitions", n, 2)
+
+
 def rule_copy(ctx: Ctx, rule: str = "C15.any"):
     """The per-state copies made for from_.any() keep every meaning-bearing field of each callback spec
     (guard polarity, event scoping, priority ...)."""
@@ -326,4 +358,4 @@ def rule_enum(ctx: Ctx):
             rep.check(ok, "C15.enum", sfd.loc(), "each (id, state) of a States collection is added under its id", sfd.key, calls[0].show())
 
 
-RULES = [rule_tofrom, rule_any, rule_copy, rule_or, rule_events, rule_enum]
+RULES = [rule_tofrom, rule_any, rule_copy, rule_or, rule_events, rule_wiring, rule_enum]
